@@ -26,6 +26,9 @@ def nallocs(sh):
     return 2 + sum(nallocs(e) for e in sh)
 
 
+TARGETS = [["C", "M1"], "S", "C", "M0", [], [["C"], "S", "M1"]]
+
+
 def toks(sh):
     if isinstance(sh, str):
         return [sh]
@@ -60,8 +63,11 @@ def generate(seed, tier):
             for full in (0, 1):
                 for k in range(0, n + 3):
                     yield "ladder insert %d %s %d" % (full, " ".join(toks(sh)), k)
-        for k in range(0, n + 1):             # clone into the existing target: one request less (no value object)
-            yield "ladder set %s %d" % (" ".join(toks(sh)), k)
+        # replace an existing element (of a few different shapes) by a clone of sh: the clone is built in a scratch object
+        # (n requests), fault positions 0..n+1
+        for tsh in (TARGETS if len(toks(sh)) < 12 else TARGETS[:2]):
+            for k in range(0, n + 2):
+                yield "ladder set %s %s %d" % (" ".join(toks(tsh)), " ".join(toks(sh)), k)
 
 
 def _f(obs, name):
@@ -103,7 +109,7 @@ def oracle(req, impl):
     if "!NAMES" in impl or "setup-failed" in impl:
         return "cif_loop_get_names: wrong number of names / set-up failed"
     for mark, what in (("!COUNT", "the list lost or gained elements"), ("!ELEM", "the target element is no longer retrievable"),
-                       ("!KIND", "after success the target element does not have the kind of the source")):
+                       ("!NEWVALUE", "after success the target element does not equal the source")):
         if mark in impl:
             return "cif_value_set_element_at: " + what
     rc, fails, live, frees = _f(impl, "rc"), _f(impl, "fails"), _f(impl, "live"), _f(impl, "frees")
